@@ -837,6 +837,10 @@ func concWorker(c *mon.Ctx) {
 	if per := int(scaled(10000)) / int(nshards); per > 0 && watchdogs < 2 {
 		pingPong(c, 1, per, true)
 		pingPong(c, 2, per/2+1, true)
+		// and the race for the last free id, under the race detector and the hook
+		lr := int(scaled(3000)) / int(nshards)
+		lastIDRace(c, 1, 8, lr, true)
+		lastIDRace(c, 2, 4, lr/2+1, true)
 	}
 	c.Count("conc_hook_calls_from_library_goroutines", tapLibCalls.Load())
 	if sigFile != "" {
@@ -995,5 +999,171 @@ func pingPong(c *mon.Ctx, n, rounds int, hook bool) {
 			Refusals: k, FirstAt: firstAt.Load(), FirstErr: fe, RoundsRun: ran.Load(),
 			What: fmt.Sprintf("%d of %d managed sends were refused although the sender had just read its final response from Incoming() "+
 				"(channel closed) and the other %d sender(s) have at most one request each: fewer than N=%d requests were unanswered", k, ran.Load(), n-1, n)})
+	}
+}
+
+// ---------------------------------------------------------------------------------------------
+// direct invariant: "when N requests are unanswered a further send is refused with an error rather than blocked",
+// aimed at the race for the LAST free id.
+//
+// N-1 managed requests are outstanding and stay unanswered, so exactly one id is free. k goroutines, released together
+// by a barrier, each do ONE managed send. Exactly one must be accepted, the others refused, and ALL must return. The
+// accepted request is then answered (one id free again) and the next round starts on the same handler.
+
+type lastIDDetail struct {
+	Part     string   `json:"part"` // "lastid"
+	Seed     int64    `json:"seed"`
+	N        int      `json:"N"`
+	K        int      `json:"senders"`
+	Rounds   int      `json:"rounds"`
+	Hook     bool     `json:"log_hook_delays"`
+	Round    int      `json:"failing_round"`
+	Accepted []int16  `json:"accepted_ids"`
+	Refused  int      `json:"refused"`
+	Missing  int      `json:"senders_that_did_not_return"`
+	What     string   `json:"what"`
+	Stacks   []string `json:"stacks,omitempty"`
+}
+
+const lastIDWatchdog = 10 * time.Second // looked at twice: a sender must be parked in the library both times
+
+func lastIDRace(c *mon.Ctx, n, k, rounds int, hook bool) {
+	ctx, cancel := context.WithCancel(context.Background())
+	defer cancel()
+	h := client.VerifNewInFlight(ctx, n, 4, longTimeout)
+	for i := 0; i < n-1; i++ {
+		if _, err := h.Enqueue(newSendFrame(client.ManagedStreamId)); err != nil {
+			c.Inconclusive("conc: last-id race: could not set up N-1 outstanding requests")
+			return
+		}
+	}
+	type result struct {
+		ok bool
+		id int16
+	}
+	work := make([]chan chan struct{}, k)
+	goids := make([]int64, k)
+	idle := make(chan int, k)
+	results := make(chan result, k)
+	quit := make(chan struct{})
+	defer close(quit)
+	for w := 0; w < k; w++ {
+		work[w] = make(chan chan struct{}, 1)
+		go func(w int) {
+			goids[w] = goid()
+			idle <- w
+			for {
+				var gate chan struct{}
+				select {
+				case gate = <-work[w]:
+				case <-quit:
+					return
+				}
+				idle <- w // armed
+				<-gate
+				f := newSendFrame(client.ManagedStreamId)
+				_, err := h.Enqueue(f)
+				results <- result{err == nil, f.Header.StreamId}
+			}
+		}(w)
+	}
+	for w := 0; w < k; w++ {
+		<-idle
+	}
+	if hook {
+		st := &tapState{roles: map[int64]*tapGor{}, pct: 30, t0: time.Now()}
+		for w := 0; w < k; w++ {
+			st.roles[goids[w]] = &tapGor{rng: uint64(c.Seed)*0x9E3779B97F4A7C15 + uint64(w)}
+		}
+		curTap.Store(st)
+		defer curTap.Store(nil)
+	}
+	hb := startHeartbeat()
+	defer close(hb.stop)
+	det := lastIDDetail{Part: "lastid", Seed: c.Seed, N: n, K: k, Rounds: rounds, Hook: hook}
+	done := 0
+	defer func() {
+		c.Eval(1)
+		c.Count(fmt.Sprintf("conc_last_id_race_rounds/N=%d/senders=%d", n, k), int64(done))
+		c.Distinct(fmt.Sprintf("lastid|%d|%d|%v", n, k, hook))
+	}()
+	for r := 0; r < rounds; r++ {
+		gate := make(chan struct{})
+		for w := 0; w < k; w++ {
+			work[w] <- gate
+		}
+		for w := 0; w < k; w++ {
+			<-idle
+		}
+		close(gate) // the barrier opens: k managed sends race for one id
+		var acc []int16
+		refused, got := 0, 0
+		mark := hb.n.Load()
+		collect := func(d time.Duration) {
+			t := time.NewTimer(d)
+			defer t.Stop()
+			for got < k {
+				select {
+				case res := <-results:
+					got++
+					if res.ok {
+						acc = append(acc, res.id)
+					} else {
+						refused++
+					}
+				case <-t.C:
+					return
+				}
+			}
+		}
+		collect(lastIDWatchdog)
+		if got < k {
+			// somebody has not returned: look twice
+			buf := make([]byte, 16<<20)
+			dump1 := string(buf[:runtime.Stack(buf, true)])
+			collect(lastIDWatchdog)
+			if got < k {
+				dump2 := string(buf[:runtime.Stack(buf, true)])
+				parked := 0
+				var stacks []string
+				for w := 0; w < k; w++ {
+					_, _, b1 := classifyDump(dump1, goids[w])
+					state, stack, b2 := classifyDump(dump2, goids[w])
+					if b1 && b2 {
+						parked++
+						if len(stacks) < 2 {
+							stacks = append(stacks, fmt.Sprintf("[%s]\n%s", state, stack))
+						}
+					}
+				}
+				det.Round, det.Accepted, det.Refused, det.Missing, det.Stacks = r, acc, refused, k-got, stacks
+				if parked > 0 && hb.healthy(mark, 2*lastIDWatchdog) {
+					det.What = fmt.Sprintf("round %d: %d of %d managed sends racing for the last free id (N=%d, %d outstanding) did not return: "+
+						"parked inside the library at two looks %v apart (accepted %d, refused %d); a send must be refused, not blocked",
+						r, k-got, k, n, n-1, lastIDWatchdog, len(acc), refused)
+					c.Violation("conc/managed/enqueue/blocked-on-empty-pool", det)
+				} else {
+					c.Inconclusive("conc: last-id race watchdog (no sender parked in the library, or the box stalled)")
+				}
+				return // the handler is abandoned: its blocked goroutines never come back
+			}
+		}
+		done++
+		switch {
+		case len(acc) > 1:
+			det.Round, det.Accepted, det.Refused = r, acc, refused
+			det.What = fmt.Sprintf("round %d: %d managed sends were accepted (ids %v) with %d requests already unanswered and N=%d", r, len(acc), acc, n-1, n)
+			c.Violation("conc/managed/last-id/accepted-beyond-N", det)
+		case len(acc) == 0:
+			det.Round, det.Accepted, det.Refused = r, acc, refused
+			det.What = fmt.Sprintf("round %d: all %d managed sends were refused although only %d of N=%d requests are unanswered and one id is free", r, k, n-1, n)
+			c.Violation("conc/managed/last-id/all-refused-with-a-free-id", det)
+		}
+		for _, id := range acc {
+			h.Deliver(finalFrame(id, 0)) // one id is free again
+		}
+		if len(acc) != 1 {
+			return
+		}
 	}
 }
